@@ -1,6 +1,7 @@
 package main
 
 import (
+	"fmt"
 	"io"
 	"os"
 	"reflect"
@@ -186,6 +187,82 @@ func codePoints(s string) []string {
 		t.i(int(r))
 	}
 	return t
+}
+
+// runSharedPos: SharedPos <print case>: ONE Positions value (built from the ranges last to first, so out of order)
+// is used by four goroutines printing at the same time, several rounds, without having been used before; every
+// text must be the one a print with its own Positions gives (which is returned and checked by the model). A
+// Positions value is immutable: using it does not change it.
+func runSharedPos(c *Case) []string {
+	p := parsePrint(&cur{t: c.Args})
+	p.fn = 0
+	v, _, errs := p.window(c.Ver)
+	if errs != "" {
+		return []string{errs}
+	}
+	rev := func(add func(s, e int)) {
+		for i := len(p.rng) - 1; i >= 0; i-- {
+			add(p.rng[i][0], p.rng[i][1])
+		}
+	}
+	var ref string
+	var print func() string
+	fresh := func() {
+		switch c.Ver {
+		case "v1":
+			var b v1.PositionsBuilder
+			rev(func(s, e int) { b.AddRange(s, e) })
+			pos := b.Build()
+			print = func() string { return v1.Sprint(v.s1, pos, opts1(p)...) }
+		case "v2":
+			var b v2.PositionsBuilder
+			rev(func(s, e int) { b.AddRange(s, e) })
+			pos := b.Build()
+			print = func() string { return v2.Sprint(v.s2, pos, opts2(p)...) }
+		default:
+			var b v3.PositionsBuilder
+			rev(func(s, e int) { b.AddRange(s, e) })
+			pos := b.Build()
+			print = func() string { return v3.Sprint(v.s3, pos, opts3(p)...) }
+		}
+	}
+	switch c.Ver {
+	case "v1":
+		ref = v1.Sprint(v.s1, pos1of(p.rng), opts1(p)...)
+	case "v2":
+		ref = v2.Sprint(v.s2, pos2of(p.rng), opts2(p)...)
+	default:
+		ref = v3.Sprint(v.s3, pos3of(p.rng), opts3(p)...)
+	}
+	const g, rounds = 4, 6
+	for rd := 0; rd < rounds; rd++ {
+		fresh()
+		outs := make([]string, g)
+		start := make(chan struct{})
+		var wg sync.WaitGroup
+		for i := 0; i < g; i++ {
+			wg.Add(1)
+			go func(k int) {
+				defer wg.Done()
+				defer func() {
+					if e := recover(); e != nil {
+						outs[k] = "PANIC " + sanitize(fmt.Sprint(e))
+					}
+				}()
+				<-start
+				outs[k] = print()
+			}(i)
+		}
+		close(start)
+		wg.Wait()
+		outs = append(outs, print()) // and once more afterwards
+		for _, o := range outs {
+			if o != ref {
+				return append(append([]string{"PARMISMATCH"}, codePoints(ref)...), append([]string{"|"}, codePoints(o)...)...)
+			}
+		}
+	}
+	return codePoints(ref)
 }
 
 func runSprint(c *Case) []string {
